@@ -230,6 +230,79 @@ def near_ties(rng, db):
     return db
 
 
+def real_body_lines(md):
+    """The lines of the BODY of a real report (between `# Recommended programs` and the blank line before
+    `# Summary`), the source listings removed: after a program title, the blank line, the opening fence and
+    everything up to the closing fence (a numbered source line starts with its 4-character number, so it is
+    never the bare fence). Returns None when the text does not have that shape."""
+    lines = md.split("\n")
+    if "# Recommended programs" not in lines or "# Summary" not in lines:
+        return None
+    i0 = lines.index("# Recommended programs")
+    i1 = max(k for k, l in enumerate(lines) if l == "# Summary")
+    if i1 - 1 <= i0 or lines[i1 - 1] != "":
+        return None
+    body = lines[i0 + 1:i1 - 1]
+    out, k = [], 0
+    while k < len(body):
+        out.append(body[k])
+        if body[k].startswith("### Program ") and body[k + 1:k + 3] == ["", "```python"]:
+            k += 3
+            while k < len(body) and body[k] != "```":
+                k += 1
+            if k == len(body):
+                return None
+        k += 1
+    return out
+
+
+def check_body_text(ctx, drv, md, model, impl, strategy, width, base):
+    """The TEXT of the body (round 10, B5): the model's lines (ReportText.renderBody, Lean) against the real lines,
+    LINE BY LINE; the real lines read by the proved strict reader (ReportText.parseBodyStrict, Lean) against the structured
+    report of the model (= the filter's result) and against what the Python Markdown parser of this harness read;
+    the hygiene hypotheses of C17_text_roundtrip (okBody, costsOK) evaluated by Lean on the structured report."""
+    stream = "body text (line by line + parseBody of the real lines)"
+    real = real_body_lines(md)
+    mt = drv.call("c17.body_text", body=model["body"], width=width, strategy=strategy)
+    n_rows = sum(len(sec["rows"]) for b in model["body"] for sec in b["sections"])
+    ctx.count(stream, (tuple(real or ()),), nontrivial=len(model["body"]) >= 1 and n_rows >= 1)
+    ctx.dist("body text: %s" % ("empty" if not model["body"] else "1 heading" if len(model["body"]) == 1 else "2+ headings"))
+    replay = dict(base, kind="body_text", impl_lines=real, model_lines=mt["lines"])
+    if not (mt["ok_body"] and mt["costs_ok"]):
+        ctx.broken.append("corr:" + stream + " (hypotheses)")
+        ctx.notes.append("a generated report does not satisfy the hypotheses of C17_text_roundtrip (ok_body=%s costs_ok=%s): %s"
+                         % (mt["ok_body"], mt["costs_ok"], json.dumps(model["body"])[:300]))
+        return
+    if real is None:
+        ctx.violations.append({"what": "the report has no body between `# Recommended programs` and `# Summary` (or an unclosed listing)",
+                               "replay": replay, "signature": None})
+        return
+    read = drv.call("c17.body_parse", text="\n".join(real))   # the text itself: split by the spec (C17_text_roundtrip_string)
+    replay["spec(parseBody of impl lines)"] = read
+    replay["model(=spec) structured"] = model["body"]
+    if read is None and impl["body"] == model["body"]:
+        # the strict reader refuses a line, the lenient Python parser finds the filter's result: no clause of the property is contradicted
+        ctx.broken.append("corr:" + stream + " (a line the proved reader refuses)")
+        bad = [l for l in real if l not in set(mt["lines"])][:3]
+        ctx.notes.append("body text not readable by parseBody although the lenient parser finds the filter's result; lines not in the model: %s" % json.dumps(bad))
+        return
+    if read != model["body"]:
+        if sum(1 for v in ctx.violations if v.get("replay", {}).get("kind") == "body_text") < 3:
+            ctx.violations.append({"what": "the lines of the report body do not read back (parseBody) as the filter's result: "
+                                           + ("unreadable text" if read is None else "another structured report"),
+                                   "replay": replay, "signature": None})
+        return
+    if read != impl["body"]:
+        ctx.broken.append("corr:" + stream + " (Python Markdown parser of the harness ≠ parseBody)")
+        ctx.notes.append("the harness's Markdown parser and the proved reader disagree: %s" % json.dumps({"python": impl["body"], "lean": read})[:400])
+        return
+    if real != mt["lines"]:
+        ctx.broken.append("corr:" + stream)
+        diff = [(a, b) for a, b in zip(real, mt["lines"]) if a != b][:3]
+        ctx.notes.append("body text differs from the model (reads back correctly): first differing lines (impl, model) = %s; lengths %d / %d"
+                         % (json.dumps(diff), len(real), len(mt["lines"])))
+
+
 def run(ctx):
     core.prove(ctx)
     core.import_repo()
@@ -259,6 +332,9 @@ def run(ctx):
             model = drv.call(**model_request(db, runs, strategy, sorting, grouping))
             if "exc" not in impl and "exc" not in model:
                 check_report_cells(ctx, drv, cells, model)
+                check_body_text(ctx, drv, md, model, impl, strategy, width,
+                                {"db": db, "runs": runs, "strategy": strategy, "sorting": sorting, "grouping": grouping,
+                                 "width": width, "earlier": earlier})
             ctx.dist(f"earlier_renderings={len(earlier)}")
             if "exc" in model:
                 model = {"exc": model["exc"]}
@@ -307,18 +383,30 @@ def run(ctx):
         "cell streams: the text of the cell computed by the Lean model (couple_to_string, join, textwrap.wrap, template) against the real "
         "enumeration_to_txt_factory(width, '_imported_') BYTE FOR BYTE, the real textwrap.wrap lines against the model's, and parseCell of the real cell "
         "against the spans, on widths 1-40 × a fixed family and on random lists of 0-40 spans of magnitudes up to 10^16 (width 30 most frequent); "
+        "body text (B5): for every generated report, the lines of the body written by the Lean model ReportText.renderBody (heading lines with counts, "
+        "title lines with path and cost, table header, row lines, rule; cost texts by the model of float repr) against the real lines LINE BY LINE "
+        "(source listings removed), the real lines read by the PROVED strict reader ReportText.parseBodyStrict (Lean: every line classified, the grammar of the body checked) against the structured report of the model and "
+        "against what the Python Markdown parser of this harness read, and the hypotheses okBody / costsOK of C17_text_roundtrip evaluated by Lean on it; "
         "plus cost_bucket on a grid of 12k dyadic rationals. Non-trivial = at least one section and some command or hidden program (reports), a wrapped cell (cells)."
     )
     ctx.cov["trusted_base"] = TRUST + [
-        "the Markdown parser of this harness for headings, table rows and summary lines (slugs and the line-number gutter are outside the model)",
+        "the Markdown parser of this harness for the summary lines; for headings, titles and table rows it is cross-checked on every report by the "
+        "proved reader ReportText.parseBodyStrict run on the same lines (slugs, the table of contents and the line-number gutter are outside the model; "
+        "the source listing is removed by the harness before the comparison)",
+        "the model of float repr (ReportText.showFloat: exact decimal expansion of a dyadic cost, CPython format_float_short rule for the exponent) "
+        "and the int/float distinction of row costs (rowCostText) are tied to the real text by the line-by-line stream only; the theorems take the "
+        "cost texts as parameters and need only costsOK, which Lean evaluates on each report",
+        "title_format='{path}' (what the harness passes); with the default format only the last path segment is printed",
         "the Lean model of textwrap.wrap (CPython 3.12 _split/_wrap_chunks/_handle_long_word on the alphabet digits - , space) is tied to the real "
         "textwrap by correspondence only (byte-for-byte on generated span lists); the theorems are about that model",
         "math.log2 in cost_bucket is compared on a grid only; float corner cases near 2^k for k ≥ 12 are outside the envelope",
     ]
     ctx.cov["proved"] = ["C17_membership", "C17_bucket", "C17_bucket_contains", "C17_order", "C17_rows", "C17_total", "C17_summary",
                          "C17_summary_fresh", "C17_stdout", "C17_order_across", "C17_order_across_assess", "C17_cell_roundtrip", "C17_cell_imported",
-                         "C17_cell_not_imported", "C17_cell_wrap_keeps_text"]
-    ctx.cov["exercised_only"] = ["rendering: slugs, line-number gutter",
+                         "C17_cell_not_imported", "C17_cell_wrap_keeps_text", "C17_text_roundtrip", "C17_text_roundtrip_string", "C17_text_okBody_of_db", "C17_text_injective", "C17_text_membership",
+                         "C17_text_rows", "C17_text_bucket_count", "C17_text_reader_counts", "C17_text_reader_sound", "C17_text_roundtrip_strict", "C17_text_strict_le"]
+    ctx.cov["exercised_only"] = ["rendering: slugs, table of contents, line-number gutter and source listing",
+                                 "float repr of the costs (showFloat / rowCostText against the real text, line by line)",
                                  "C17_cell_unwrap_statement (lines joined by one space = the enumeration when no chunk exceeds the first line)"]
     finish_tie(ctx)
     return core.finish(ctx)
@@ -338,10 +426,23 @@ def replay(ctx, path):
         print("spec (parseCell of impl):", read, " row spans:", obj["spans"])
         drv.close()
         return 0 if (read == obj["spans"] and (impl == model or "width" not in obj)) else 1
-    if obj.get("kind") != "report":
+    if obj.get("kind") not in ("report", "body_text"):
         print(obj)
         return 0
     drv = core.Driver()
+    if obj.get("kind") == "body_text":
+        impl, md = run_real(obj["db"], obj["runs"], obj["strategy"], obj["sorting"], obj["grouping"], obj.get("width", 10 ** 6),
+                            obj.get("earlier", ()))
+        model = drv.call(**model_request(obj["db"], obj["runs"], obj["strategy"], obj["sorting"], obj["grouping"]))
+        real = real_body_lines(md) if md is not None else None
+        mt = drv.call("c17.body_text", body=model.get("body", []), width=obj.get("width", 10 ** 6), strategy=obj["strategy"])
+        read = drv.call("c17.body_parse", lines=real) if real is not None else None
+        print("impl lines :", json.dumps(real, ensure_ascii=False))
+        print("model lines:", json.dumps(mt["lines"], ensure_ascii=False), " ok_body:", mt["ok_body"], " costs_ok:", mt["costs_ok"])
+        print("spec (parseBody of impl lines):", json.dumps(read, ensure_ascii=False))
+        print("model(=spec) structured      :", json.dumps(model.get("body"), ensure_ascii=False))
+        drv.close()
+        return 0 if (read == model.get("body") and real == mt["lines"]) else 1
     impl, md = run_real(obj["db"], obj["runs"], obj["strategy"], obj["sorting"], obj["grouping"], obj.get("width", 10 ** 6),
                         obj.get("earlier", ()))
     model = drv.call(**model_request(obj["db"], obj["runs"], obj["strategy"], obj["sorting"], obj["grouping"]))
